@@ -65,6 +65,16 @@ FACTS = [
      r"read_response_body\(response\)\s*\.await\s*\.map_err\(\|e\|\s*match e\s*\{\s*Error::Hyper\(HyperErrorType::Deserialize\(_\)\)\s*=>", "count", 1, ["C12"]),
     ("keyReadResponseBodySites", ["proxy_agent/src/key_keeper/key.rs"], r"read_response_body\s*\(", "count", 1, ["C12"]),
     ("keeperRestSaturating", ["proxy_agent/src/key_keeper.rs"], r"let\s+continue_sleep\s*=\s*\w+\.as_millis\(\)\s*\.saturating_sub\(\s*\w+\s*\)", "count", 1, ["C13"]),
+    # C16: inside write_provision_state nothing is awaited once the temp file's name has been used; the name is used and renamed there
+    ("tagTmpThenAwait", ["proxy_agent/src/provision.rs"],
+     r"async fn write_provision_state\b(?:(?!\n\}\n).)*?STATUS_TAG_TMP_FILE_NAME(?:(?!\n\}\n).)*?\.await", "count", 0, ["C16"]),
+    ("tagTmpThenRename", ["proxy_agent/src/provision.rs"],
+     r"async fn write_provision_state\b(?:(?!\n\}\n).)*?STATUS_TAG_TMP_FILE_NAME(?:(?!\n\}\n).)*?rename\(", "count", 1, ["C16"]),
+    # C11: the status task clears the summaries a day after it started / last cleared
+    ("statusClearSeconds", "proxy_agent/src/proxy_agent_status.rs",
+     r"let\s+map_clear_duration\s*=\s*Duration::from_secs\(([0-9_ *]+)\)\s*;", "prod", 86400, ["C11"]),
+    ("statusClearTest", ["proxy_agent/src/proxy_agent_status.rs"], r"if\s+start_time\.elapsed\(\)\s*>=\s*map_clear_duration\s*\{", "count", 1, ["C11"]),
+    ("statusClearRestarts", ["proxy_agent/src/proxy_agent_status.rs"], r"start_time\s*=\s*Instant::now\(\)\s*;", "count", 2, ["C11"]),
     ("keeperRestPlainSub", ["proxy_agent/src/key_keeper.rs"], r"let\s+continue_sleep\s*=\s*\w+\.as_millis\(\)\s*-\s*\w+", "count", 0, ["C13"]),
     ("stateKeyReadStatusFile", "proxy_agent_extension/src/constants.rs", r'pub const STATE_KEY_READ_PROXY_AGENT_STATUS_FILE\s*:\s*&str\s*=\s*"([^"]*)"\s*;', "str", "ReadProxyAgentStatusFile", ["C20"]),
     ("stateKeyFileVersion", "proxy_agent_extension/src/constants.rs", r'pub const STATE_KEY_FILE_VERSION\s*:\s*&str\s*=\s*"([^"]*)"\s*;', "str", "FileVersion", ["C20"]),
